@@ -141,5 +141,8 @@ func GenConc(t *rapid.T) *ConcCase {
 	if rapid.Bool().Draw(t, "hasLate") {
 		c.Late = rapid.IntRange(1, 8).Draw(t, "late")
 	}
+	if rapid.IntRange(0, 2).Draw(t, "hasReaders") == 0 {
+		c.Readers = rapid.IntRange(1, 3).Draw(t, "readers")
+	}
 	return c
 }
